@@ -4,9 +4,9 @@
     [run (S f) cfg ds = Ok st]: the main loop terminated without exception ([f] bounds the nesting of sequences;
     the result is [finish st], and [extract (S f) cfg ds = Ok (finish st)]). *)
 From Coq Require Import Strings.String.
-From Coq Require Import List Bool NArith ZArith.
-From DV Require Import Common.Res Common.Str Generated.T_extract Extract.Model Extract.ProofsStr Extract.Spec
-  Extract.ProofsLoop Extract.ProofsMain Extract.Examples.
+From Coq Require Import List Bool NArith ZArith QArith_base.
+From DV Require Import Common.Res Common.Str Common.PyNum Generated.T_extract Extract.Model Extract.ProofsStr Extract.Spec
+  Extract.ProofsLoop Extract.ProofsMain Extract.ProofsMore Extract.Decl Extract.ProofsDecl Extract.Examples.
 Import ListNotations.
 Local Open Scope N_scope.
 
@@ -72,8 +72,12 @@ Theorem C15_never_default : forall cfg f ds st,
     (fst t) mod 2 <> 1.
 Proof. exact never_default. Qed.
 
-Example C15_never_ex : extract 3 ex_cfg ex_ds = Ok ex_result /\ c_rules ex_cfg = default_ignore_rules.
-Proof. split; [exact ex_extract | reflexivity]. Qed.
+Example C15_never_ex :
+  c_rules ex_cfg = default_ignore_rules /\
+  exists st, run 3 ex_cfg ex_ds = Ok st /\
+    map std_tag (s_std st) = [(0x0008, 0x0060); (0x0008, 0x1140); (0x0018, 0x0050); (0x0020, 0x0013); (0x0020, 0x0032)] /\
+    map fst (s_tmeta st) = [lit "T1"].
+Proof. split; [reflexivity | exact ex_run]. Qed.
 
 (** Distinct surviving elements get distinct keys, every surviving element's value is found under its key, no
     translated element is lost, and the result is exactly the standard entries followed by the translator entries --
@@ -152,32 +156,150 @@ Theorem C15_values_conversion : forall cfg,
      (forall c l', dget (e_vr i) (c_convs cfg) = Some c ->
         get_elem_value cfg (i, VMulti cl l) = Ok (VMulti CList l') <->
         Forall2 (fun a b => conv_apply (c_get_text cfg) c a = Ok b) l l')) /\
-  (forall gt c tok, conv_apply gt CvFloat (VNum c tok) = Ok (VNum CFloat tok)) /\
+  (forall gt c x tok, conv_apply gt CvFloat (VNum c x tok) = Ok (VNum CFloat x tok)) /\
   (forall gt c z, conv_apply gt CvInt (VInt c z) = Ok (VInt CInt z)) /\
   (forall gt c s, conv_apply gt CvStr (VStr c s) = Ok (VStr CStr s)).
 Proof. exact values_conversion. Qed.
 
 Example C15_values_conversion_ex :
-  get_elem_value ex_cfg (mk_einfo (0x20, 0x32) (lit "DS") 3 (lit "ImagePositionPatient") (lit "Image Position (Patient)"),
-                         VMulti CMulti [VNum CDs (lit "1.0"); VNum CDs (lit "2.5")])
-  = Ok (VMulti CList [VNum CFloat (lit "1.0"); VNum CFloat (lit "2.5")]).
+  get_elem_value ex_cfg (mk_einfo (0x20, 0x32) (lit "DS") 3 (lit "ImagePositionPatient") (lit "Image Position (Patient)") None,
+                         VMulti CMulti [F 1 1 "1.0" CDs; F 5 2 "2.5" CDs])
+  = Ok (VMulti CList [F 1 1 "1.0" CFloat; F 5 2 "2.5" CFloat]).
 Proof. reflexivity. Qed.
 
-(** With the default conversions (as they are in the source now) DS becomes float and IS becomes int. *)
+(** With the default conversions (as they are in the source now) DS becomes float and IS becomes int, with the VALUE:
+    when the element carries the text it was made from ([e_raw], pydicom's original_string) and its value is
+    float(text) / int(text) -- a pydicom fact that the correspondence check verifies on every case with
+    Common.PyNum.py_float / py_int -- the extracted number is float(text) / int(text). *)
 Theorem C15_values_default_numeric : forall cfg,
   c_convs cfg = default_conversions ->
-  (forall i c tok, e_vr i = lit "DS" -> e_vm i = 1%nat ->
-     get_elem_value cfg (i, VNum c tok) = Ok (VNum CFloat tok)) /\
+  (forall i c x tok, e_vr i = lit "DS" -> e_vm i = 1%nat ->
+     get_elem_value cfg (i, VNum c x tok) = Ok (VNum CFloat x tok)) /\
+  (forall i c x tok s y, e_vr i = lit "DS" -> e_vm i = 1%nat -> e_raw i = Some s ->
+     py_float s = Ok y -> fval_eqb x y = true ->
+     exists x' tok', get_elem_value cfg (i, VNum c x tok) = Ok (VNum CFloat x' tok') /\ fval_eqb x' y = true) /\
   (forall i c z, e_vr i = lit "IS" -> e_vm i = 1%nat ->
      get_elem_value cfg (i, VInt c z) = Ok (VInt CInt z)) /\
-  (forall i cl toks, e_vr i = lit "DS" -> (1 < e_vm i)%nat ->
-     get_elem_value cfg (i, VMulti cl (map (VNum CDs) toks)) = Ok (VMulti CList (map (VNum CFloat) toks))) /\
+  (forall i c z s, e_vr i = lit "IS" -> e_vm i = 1%nat -> e_raw i = Some s -> py_int s = Ok z ->
+     exists y, get_elem_value cfg (i, VInt c z) = Ok (VInt CInt y) /\ py_int s = Ok y) /\
+  (forall i cl xs, e_vr i = lit "DS" -> (1 < e_vm i)%nat ->
+     get_elem_value cfg (i, VMulti cl (map (fun p => VNum CDs (fst p) (snd p)) xs))
+     = Ok (VMulti CList (map (fun p => VNum CFloat (fst p) (snd p)) xs))) /\
   (forall i cl zs, e_vr i = lit "IS" -> (1 < e_vm i)%nat ->
      get_elem_value cfg (i, VMulti cl (map (VInt CIs) zs)) = Ok (VMulti CList (map (VInt CInt) zs))).
 Proof. exact values_default_numeric. Qed.
 
-Example C15_values_default_numeric_ex : c_convs ex_cfg = default_conversions /\ length default_conversions = 10%nat.
-Proof. split; reflexivity. Qed.
+Example C15_values_default_numeric_ex :
+  c_convs ex_cfg = default_conversions /\
+  (exists y, py_float (lit " 2.50") = Ok y /\ fval_eqb (FFin (Qmake 5 2)) y = true) /\ py_int (lit "+07") = Ok 7%Z /\
+  get_elem_value ex_cfg (mk_einfo (0x0018, 0x0050) (lit "DS") 1 (lit "SliceThickness") (lit "Slice Thickness") (Some (lit " 2.50")),
+                         F 5 2 "2.5" CDs) = Ok (F 5 2 "2.5" CFloat).
+Proof. split; [reflexivity | split; [eexists; split; vm_compute; reflexivity | split; [vm_compute; reflexivity | reflexivity]]]. Qed.
+
+(** INDEPENDENT SPECIFICATION.  Extract/Decl.v reads the property declaratively (it calls no function of the model):
+    per element, by cases -- blank text; claimed by a translator through an EARLIER Private Creator element of the same
+    group (DICOM block rule: elem / 256 = creator element, low byte = low byte of the translator's tag, creator string
+    equal); matched by an ignore rule (predicates on (group, element) with the standard's constants); no value; sequence;
+    plain -- with keys given by a one-pass camel-casing and clashes disambiguated by tag.  The model computes the same
+    classes, the same surviving and translated elements, and assigns exactly the expected keys. *)
+Theorem C15_decl_agree : forall cfg f ds st,
+  run (S f) cfg ds = Ok st ->
+  names_wf ds = true ->        (* pydicom: an element is named "Private Creator" iff group odd and element in 0x10..0xff *)
+  kinds_from cfg [] ds = d_kinds cfg [] ds /\
+  survivors_from cfg [] ds = d_survivors cfg [] ds /\
+  translated_from cfg [] ds = d_translated cfg [] ds /\
+  map (final_key (s_std st)) (s_std st) = d_expected_std_keys cfg ds.
+Proof. exact decl_agree. Qed.
+
+(** ... and under the injectivity hypotheses the keys of the result are exactly the expected keys, in order. *)
+Theorem C15_decl_keys : forall cfg f ds st,
+  run (S f) cfg ds = Ok st ->
+  names_wf ds = true ->
+  NoDup (map etag ds) -> no_suffix_clash ds = true -> no_dot_keys ds = true ->
+  trans_names_dot_free cfg = true -> metas_are_dicts cfg -> bound_once cfg ds = true ->
+  map fst (finish st) = d_expected_keys cfg ds.
+Proof. exact decl_keys. Qed.
+
+(** the pieces of the declarative reading agree with the code's: key naming, ignore rules (against the generated
+    tables, element lists in any order), slot arithmetic *)
+Theorem C15_decl_pieces :
+  (forall i, d_key i = get_elem_key i) /\
+  (forall r t, d_rule r t = apply_rule r t) /\
+  (forall tl ce el, (el =? N.lor (N.land tl 255) (ce * 256)) = (el / 256 =? ce) && (el mod 256 =? tl mod 256)) /\
+  (forall s b c, In c (d_camel b s) ->
+     py_isspace c = false \/ exists c0, In c0 s /\ py_isspace c0 = false /\ c = to_upper c0).
+Proof. split; [exact d_key_eq | split; [exact d_rule_eq | split; [exact slot_arith | exact d_camel_no_space]]]. Qed.
+
+Example C15_decl_ex :
+  (names_wf ex_ds = true /\ names_wf clash_ds = true /\ names_wf f12_ds = true) /\
+  d_expected_keys ex_cfg ex_ds = map fst ex_result /\
+  d_expected_keys clash_cfg clash_ds =
+    [lit "Modality_0X8_0X60"; lit "PrivateCreator"; lit "FooBar_0X29_0X1001"; lit "FooBar_0X29_0X1002"; lit "Modality_0X29_0X1003"] /\
+  d_kinds ex_cfg [] ex_ds = kinds_from ex_cfg [] ex_ds.
+Proof. split; [exact ex_names_wf | split; [exact ex_expected_keys | split; [exact clash_expected_keys | exact ex_d_kinds]]]. Qed.
+
+(** JSON: every value of the result (at every depth) is None, a str, an int, a float, a list or a dict of such --
+    provided every element whose VR has no conversion holds only such values (i.e. the conversions cover the byte
+    string VRs and PN; ignored elements do not matter) and the translation functions return such values. *)
+Theorem C15_json_serialisable : forall cfg, metas_json cfg ->
+  forall f ds r, inputs_json cfg ds = true -> extract f cfg ds = Ok r -> dict_json r = true.
+Proof. exact json_serialisable. Qed.
+
+Example C15_json_ex : metas_json ex_cfg /\ inputs_json ex_cfg ex_ds = true /\ dict_json ex_result = true.
+Proof. split; [exact ex_cfg_metas_json | exact ex_inputs_json]. Qed.
+
+(** Every element that is not blank, not claimed by a translator, not matched by a configured rule, not an empty
+    sequence and whose value does not convert to None has its entry (own key, own tag, its value). *)
+Theorem C15_appears : forall cfg f ds st pre e post m,
+  run (S f) cfg ds = Ok st ->
+  ds = pre ++ e :: post ->
+  tmap_of cfg (pre ++ [e]) = Ok m ->
+  is_blank_str (snd e) = false ->
+  map_get (etag e) m = None ->
+  ignored cfg (etag e) = false ->
+  snd e <> VSeq [] ->
+  get_elem_value cfg e <> Ok VNone ->
+  exists x, In x (s_std st) /\ entry_ok cfg (extract f cfg) e x.
+Proof. exact appears. Qed.
+
+(** Private extraction enabled (no private-ignoring rule configured): every private element with a value that no
+    translator claims appears (unless it is overlay data of an odd 60xx group, which the overlay rule matches). *)
+Theorem C15_private_enabled : forall cfg f ds st pre e post m,
+  (forall r, In r (c_rules cfg) -> r <> RPrivate) ->
+  run (S f) cfg ds = Ok st ->
+  ds = pre ++ e :: post ->
+  tmap_of cfg (pre ++ [e]) = Ok m ->
+  N.odd (fst (etag e)) = true ->
+  ~ (N.land (fst (etag e)) 0xff00 = 0x6000 /\ snd (etag e) = 0x3000) ->
+  is_blank_str (snd e) = false ->
+  map_get (etag e) m = None ->
+  snd e <> VSeq [] ->
+  get_elem_value cfg e <> Ok VNone ->
+  exists x, In x (s_std st) /\ entry_ok cfg (extract f cfg) e x.
+Proof. exact private_enabled. Qed.
+
+Example C15_private_enabled_ex :
+  (forall r, In r (c_rules clash_cfg) -> r <> RPrivate) /\
+  exists st, run 2 clash_cfg clash_ds = Ok st /\ In (lit "FooBar", VStr CStr (lit "b"), (0x0029, 0x1002)) (s_std st).
+Proof.
+  split; [|exact clash_private_appears].
+  intros r [<- | [<- | [<- | []]]]; discriminate.
+Qed.
+
+(** Totality with respect to fuel: once the fuel exceeds the nesting depth of sequences, the outcome (result or
+    exception) is the same for every larger amount -- the fuel-exhaustion branch never decides an outcome.
+    (Fuel exhaustion shares the error code of "outside the modelled domain", so it is stated as independence.) *)
+Theorem C15_fuel_total : forall cfg f f' ds,
+  (ds_depth ds < f)%nat -> (f <= f')%nat -> run f' cfg ds = run f cfg ds /\ extract f' cfg ds = extract f cfg ds.
+Proof. exact fuel_total. Qed.
+
+Example C15_fuel_total_ex : ds_depth ex_ds = 1%nat /\ extract 2 ex_cfg ex_ds = Ok ex_result.
+Proof. split; [exact ex_depth | vm_compute; reflexivity]. Qed.
+
+(** REMARK (pixel data unchanged).  The model is a pure function of the abstract dataset: it cannot alter it, so
+    "extraction does not alter pixel data" has no content in the model.  For the implementation it is checked by
+    the harness on every case: the bytes of (7FE0,0008/0009/0010), at every nesting level, are compared before and
+    after the call and with a freshly built dataset (observation field pixel_same, oracle message pixel-changed). *)
 
 (** Determinism: the model is a function; moreover the result does not depend on the fuel. *)
 Theorem C15_deterministic : forall cfg f1 f2 ds r1 r2,
